@@ -10,6 +10,7 @@ import (
 	"encoding/hex"
 	"encoding/json"
 	"fmt"
+	"regexp"
 	"sync/atomic"
 
 	"verifh/clih"
@@ -38,6 +39,8 @@ type Case struct {
 	Cuts      []int       `json:"cuts"` // nil = whole, [-1] = bytewise
 	Streaming bool        `json:"streaming"`
 }
+
+var reDate = regexp.MustCompile(`Date: [^\r\n]*\r\n`)
 
 type worker struct {
 	buf, str *srvh.Server
@@ -71,6 +74,7 @@ func (w *worker) observeServer(stream []byte, cuts []int, streaming bool) string
 	}
 	res := s.Run(segs(stream, cuts), netsim.EndEOF, nil)
 	seen, _ := json.Marshal(res.Seen)
+	res.Out = reDate.ReplaceAll(res.Out, nil) // error responses carry a Date header whatever NoDefaultDate says: wall-clock time is not an observation
 	return fmt.Sprintf("panic=%v|err=%v|closed=%v|seen=%s|out=%q", res.Panic, res.Err != nil, res.Closed, seen, res.Out)
 }
 
